@@ -216,6 +216,8 @@ class Xml:
         # lexical variant: the E57 namespace bound to a prefix instead of being the default namespace
         self.std_prefix = lex.get("std_prefix")
         self.leaf_hook = None      # C18: foreign child elements inside standard leaf elements
+        self.sibling_hook = None   # C18: foreign elements between ANY two siblings of any standard structure
+        self._in_hook = False
 
     def q(self, tag):
         if self.std_prefix and ":" not in tag:
@@ -247,7 +249,16 @@ class Xml:
             s += " %s=%s%s%s" % (k, q, v, q)
         return s
 
+    def _sib(self, tag):
+        if self.sibling_hook is not None and not self.in_prototype and not self._in_hook and self.depth > 0 and ":" not in tag:
+            self._in_hook = True
+            try:
+                self.sibling_hook(self, tag)
+            finally:
+                self._in_hook = False
+
     def open(self, tag, at):
+        self._sib(tag)
         tag = self.q(tag)
         self.sep()
         self.out.append("<%s%s>" % (tag, self.attrs(at)))
@@ -260,6 +271,7 @@ class Xml:
         self.out.append("</%s>" % tag)
 
     def leaf(self, tag, at, text):
+        self._sib(tag)
         plain = ":" not in tag
         tag = self.q(tag)
         self.sep()
@@ -403,6 +415,8 @@ def build_xml(scene, offsets, r, lex, hooks=None):
         x.attr_hook = hooks["attrs"]
     if hooks and hooks.get("leaf"):
         x.leaf_hook = hooks["leaf"]
+    if hooks and hooks.get("sibling"):
+        x.sibling_hook = hooks["sibling"]
     decl = {"full": '<?xml version="1.0" encoding="UTF-8"?>', "short": "<?xml version='1.0'?>", "standalone": '<?xml version="1.0" encoding="UTF-8" standalone="yes"?>', "none": ""}[lex["decl"]]
     if lex["decl"] != "full":
         x.used.add("xml-declaration:" + lex["decl"])
